@@ -12,7 +12,7 @@
 
 using namespace wc;
 
-static uint64_t nA, nB, nC;
+static uint64_t nA, nB, nC, nF;
 
 static std::string spec_desc(const RspSpec& s)
 {
@@ -20,7 +20,14 @@ static std::string spec_desc(const RspSpec& s)
     for (int h : s.headers)
         d += std::string(rsp_headers()[h].name) + ",";
     d += "] cookies=" + std::to_string(s.cookies.size());
-    if (!s.stream)
+    if (s.fileSize >= 0)
+    {
+        d += " serveFile size=" + std::to_string(s.fileSize) + " ext='" + file_exts()[s.fileExt].ext + "' max=" + std::to_string(s.maxResponse) + " plan=[";
+        for (auto& a : s.plan)
+            d += a.kind == lp::FULL ? "full " : a.kind == lp::BLOCK ? "block(" + std::to_string(a.k) + ") " : a.k == lp::kHalf ? "half " : a.k == lp::kAllButOne ? "all-but-one " : "accept" + std::to_string(a.k) + " ";
+        d += "]";
+    }
+    else if (!s.stream)
         d += " send body=" + std::to_string(s.bodyLen) + (s.useMimeArg ? " +mime" : "") + " max=" + std::to_string(s.maxResponse);
     else
     {
@@ -40,7 +47,7 @@ static std::string jdetail(const RspSpec& s, const RspResult& r, const std::stri
 // full check of one emitted response; returns total size on the wire (0 when refused)
 static size_t check_response(const RspSpec& s, const RspResult& r, vr::Ctx& ctx, bool expectRefused)
 {
-    const char* kind = s.stream ? "stream" : "send";
+    const char* kind = s.fileSize >= 0 ? "file" : s.stream ? "stream" : "send";
     if (!r.handlerRan)
     {
         ctx.violation(std::string("c05:") + kind + ":handler-did-not-run", jdetail(s, r, "\"x\":0"));
@@ -49,9 +56,9 @@ static size_t check_response(const RspSpec& s, const RspResult& r, vr::Ctx& ctx,
     if (expectRefused)
     {
         if (r.promise != 2)
-            ctx.violation("c05:send:over-limit-not-rejected", jdetail(s, r, "\"promise\":" + std::to_string(r.promise)));
+            ctx.violation(std::string("c05:") + kind + ":over-limit-not-rejected", jdetail(s, r, "\"promise\":" + std::to_string(r.promise)));
         if (!r.wire.empty())
-            ctx.violation("c05:send:over-limit-bytes-emitted", jdetail(s, r, "\"promise\":" + std::to_string(r.promise)));
+            ctx.violation(std::string("c05:") + kind + ":over-limit-bytes-emitted", jdetail(s, r, "\"promise\":" + std::to_string(r.promise)));
         return 0;
     }
     if (!r.threw.empty())
@@ -69,14 +76,35 @@ static size_t check_response(const RspSpec& s, const RspResult& r, vr::Ctx& ctx,
         ctx.violation(std::string("c05:") + kind + ":bytes-after-message", jdetail(s, r, "\"message_bytes\":" + std::to_string(m.consumed)));
     if (m.status != s.code)
         ctx.violation(std::string("c05:") + kind + ":wrong-status", jdetail(s, r, "\"status\":" + std::to_string(m.status)));
-    std::string framing = s.stream ? "transfer-encoding: chunked" : "content-length: " + std::to_string(s.bodyLen);
+    std::string framing = s.fileSize >= 0 ? "content-length: " + std::to_string(s.fileSize) : s.stream ? "transfer-encoding: chunked" : "content-length: " + std::to_string(s.bodyLen);
     auto exp            = expected_rsp_headers(s, framing);
+    if (s.fileSize >= 0 && *file_exts()[s.fileExt].mime)
+    {
+        // a Content-Type derived from the file name replaces one the handler chose
+        bool had = false;
+        for (auto& x : exp)
+            if (x.compare(0, 13, "content-type:") == 0)
+            {
+                x   = std::string("content-type: ") + file_exts()[s.fileExt].mime;
+                had = true;
+            }
+        if (!had)
+            exp.push_back(std::string("content-type: ") + file_exts()[s.fileExt].mime);
+        std::sort(exp.begin(), exp.end());
+    }
     auto got            = wire_headers(m);
     if (exp != got)
         ctx.violation(std::string("c05:") + kind + ":header-set-differs", jdetail(s, r, "\"expected\":" + vr::jstr(join(exp)) + ",\"got\":" + vr::jstr(join(got))));
     if (m.body != r.written)
         ctx.violation(std::string("c05:") + kind + ":body-differs", jdetail(s, r, "\"decoded_body_bytes\":" + std::to_string(m.body.size()) + ",\"written_bytes\":" + std::to_string(r.written.size())));
-    if (!s.stream)
+    if (s.fileSize >= 0)
+    {
+        if (r.promise != 1)
+            ctx.violation("c05:file:promise-not-fulfilled", jdetail(s, r, "\"promise\":" + std::to_string(r.promise)));
+        else if (r.fulfilled != (ssize_t)s.fileSize)
+            ctx.violation("c05:file:promise-value-differs-from-the-file-size", jdetail(s, r, "\"value\":" + std::to_string(r.fulfilled)));
+    }
+    else if (!s.stream)
     {
         if (r.promise != 1)
             ctx.violation("c05:send:promise-not-fulfilled", jdetail(s, r, "\"promise\":" + std::to_string(r.promise)));
@@ -237,6 +265,73 @@ static void caseC(uint64_t i, vr::Ctx& ctx)
     ctx.outcome("request ok");
 }
 
+// ---- F: file responses (Http::serveFile) -------------------------------------------------------------------------
+// file sizes x name extensions x handler header / cookie sets x every answer plan of the socket with at most one (thorough:
+// two) non-default answers among the first 4 write calls (accept 1 / half / all but one, would-block released after 0 or 1
+// loop steps): head and file body are separate writes (send with MSG_MORE, then sendfile)
+static const long kFileSizes[] = { 0, 1, 5, 4096, 70000 };
+static std::vector<std::vector<lp::Answer>> gFilePlans;
+static void build_file_plans(int maxDev)
+{
+    const lp::Answer alts[] = { { lp::ACCEPT, 1 }, { lp::ACCEPT, lp::kHalf }, { lp::ACCEPT, lp::kAllButOne }, { lp::BLOCK, 0 }, { lp::BLOCK, 1 } };
+    gFilePlans.push_back({});
+    for (int i = 0; i < 4; ++i)
+        for (auto& a : alts)
+        {
+            std::vector<lp::Answer> p(i, lp::Answer { lp::FULL, 0 });
+            p.push_back(a);
+            gFilePlans.push_back(p);
+            if (maxDev >= 2)
+                for (int j = i + 1; j < 4; ++j)
+                    for (auto& b : alts)
+                    {
+                        std::vector<lp::Answer> q = p;
+                        q.resize(j, lp::Answer { lp::FULL, 0 });
+                        q.push_back(b);
+                        gFilePlans.push_back(q);
+                    }
+        }
+}
+static void caseF(uint64_t i, vr::Ctx& ctx)
+{
+    const uint64_t nE = file_exts().size(), nP = gFilePlans.size(), nS = sizeof kFileSizes / sizeof kFileSizes[0];
+    RspSpec s;
+    s.plan     = gFilePlans[i % nP];
+    s.fileExt  = int((i / nP) % nE);
+    s.fileSize = kFileSizes[(i / nP / nE) % nS];
+    uint64_t k = i / nP / nE / nS;
+    s.headers  = gHdrSets[k % gHdrSets.size()];
+    s.cookies  = gCookieSets[(k / gHdrSets.size()) % gCookieSets.size()];
+    s.salt     = int(i % 5);
+    s.code     = 200;
+    uint64_t steps = 0;
+    ctx.note("F " + spec_desc(s));
+    RspResult r = run_response(s, &steps);
+    check_response(s, r, ctx, false);
+    ctx.count("evaluations", 1);
+    if (s.plan.empty() && s.fileSize <= 5 && r.wire.size() > (size_t)s.fileSize)
+    {
+        // the response head goes through the size-limited response buffer: limits around the head's exact size
+        size_t head = r.wire.size() - (size_t)s.fileSize;
+        for (size_t lim : { head - 1, head, head + 1 })
+        {
+            s.maxResponse = lim;
+            ctx.note("F " + spec_desc(s));
+            RspResult r2 = run_response(s, &steps);
+            check_response(s, r2, ctx, head > lim);
+            ctx.count("evaluations", 1);
+            ctx.outcome(std::string("file head limit ") + (head > lim ? "refused" : "accepted"));
+        }
+        s.maxResponse = 0;
+    }
+    ctx.count("transitions", steps);
+    ctx.state(vr::hash_str(std::to_string(r.wire.size()) + "|" + std::to_string(lp::W().sends.size())));
+    ctx.nontrivial(vr::hash_str(spec_desc(s)));
+    ctx.outcome(std::string("file response, ") + (s.plan.empty() ? "all writes accepted" : "one or more short / would-block writes"));
+    if (i % 499 == 0)
+        ctx.sample("{\"spec\":" + vr::jstr(spec_desc(s)) + ",\"wire_bytes\":" + std::to_string(r.wire.size()) + "}");
+}
+
 int main(int argc, char** argv)
 {
     vr::Options opt = vr::parse_args(argc, argv);
@@ -246,13 +341,17 @@ int main(int argc, char** argv)
     nA = (uint64_t)gCodes.size() * gHdrSets.size() * gCookieSets.size();
     nB = (uint64_t)gPrograms.size() * 9;
     nC = gReqs.size();
-    return vr::run(opt, nA + nB + nC, [](uint64_t idx, vr::Ctx& ctx) {
+    build_file_plans(thorough ? 2 : 1);
+    nF = (uint64_t)gFilePlans.size() * file_exts().size() * (sizeof kFileSizes / sizeof kFileSizes[0]) * gHdrSets.size() * gCookieSets.size();
+    return vr::run(opt, nA + nB + nC + nF, [](uint64_t idx, vr::Ctx& ctx) {
         ctx.count("executions", 1);
         if (idx < nA)
             caseA(idx, ctx);
         else if (idx < nA + nB)
             caseB(idx - nA, ctx);
-        else
+        else if (idx < nA + nB + nC)
             caseC(idx - nA - nB, ctx);
+        else
+            caseF(idx - nA - nB - nC, ctx);
     });
 }
